@@ -38,6 +38,10 @@ type c13node struct {
 // deadlines, but the option is there)
 var c13WriteTimeout time.Duration
 
+// c13HeartbeatPeriod != 0: the nodes of the next scenarios send heartbeats at this period and answer ArduPilot heartbeats
+// with stream requests (the node's own traffic shares the channels' queues with the application's)
+var c13HeartbeatPeriod time.Duration
+
 func c13start(rep *vh.Report, k int, v1 bool, signed bool) *c13node {
 	n := &c13node{}
 	var eps []gomavlib.EndpointConf
@@ -50,7 +54,8 @@ func c13start(rep *vh.Report, k int, v1 bool, signed bool) *c13node {
 	if v1 {
 		ver = gomavlib.V1
 	}
-	n.node = &gomavlib.Node{Endpoints: eps, Dialect: testDialect, OutVersion: ver, OutSystemID: 21, HeartbeatDisable: true, WriteTimeout: c13WriteTimeout}
+	n.node = &gomavlib.Node{Endpoints: eps, Dialect: testDialect, OutVersion: ver, OutSystemID: 21, HeartbeatDisable: c13HeartbeatPeriod == 0, HeartbeatPeriod: c13HeartbeatPeriod,
+		StreamRequestEnable: c13HeartbeatPeriod != 0, WriteTimeout: c13WriteTimeout}
 	if signed && !v1 {
 		n.node.OutKey = frame.NewV2Key([]byte("0123456789abcdef0123456789abcdef"))
 	}
@@ -90,6 +95,18 @@ func wireUIDs(tr *fake.Transport, fam uint64) (accepted []uint64, attempted []ui
 		}
 	}
 	return
+}
+
+// appWrites counts the writes of a transport that are not the node's own heartbeats / stream requests (progress of the
+// application's items: the node's periodic traffic would otherwise look like progress for ever).
+func appWrites(tr *fake.Transport) int64 {
+	var c int64
+	for _, w := range tr.Writes() {
+		if f, _, st := ref.ParseAt(w.Data, 0); st != ref.ParseOK || (f.MsgID != 0 && f.MsgID != 66) {
+			c++
+		}
+	}
+	return c
 }
 
 func increasing(u []uint64) bool {
@@ -137,7 +154,7 @@ func (n *c13node) writeFlow(rep *vh.Report, r *vh.RNG, fam uint64, from, to int,
 				if got := n.trs[h].WaitWrites(0, 0); got >= 0 {
 					_ = got
 				}
-				ok := waitFor(func() bool { acc, _ := wireUIDs(n.trs[h], fam); return len(acc) >= want }, func() int64 { return int64(n.trs[h].NWrites()) }, 1500*time.Millisecond)
+				ok := waitFor(func() bool { acc, _ := wireUIDs(n.trs[h], fam); return len(acc) >= want }, func() int64 { return appWrites(n.trs[h]) }, 1500*time.Millisecond)
 				if !ok {
 					return true // the loss is reported by the caller's comparison
 				}
@@ -161,7 +178,12 @@ func c13stall(rep *vh.Report, seed uint64, idx int, j int) {
 		longStall = 4 * c13WriteTimeout
 		defer func() { c13WriteTimeout = 0 }()
 	}
-	n := c13start(rep, k, false, idx%2 == 1)
+	withAuto := idx%2 == 1
+	if withAuto {
+		c13HeartbeatPeriod = 15 * time.Millisecond
+		defer func() { c13HeartbeatPeriod = 0 }()
+	}
+	n := c13start(rep, k, false, idx%4 >= 2)
 	if n == nil {
 		return
 	}
@@ -198,7 +220,7 @@ func c13stall(rep *vh.Report, seed uint64, idx int, j int) {
 	}
 	// while the stall lasts: the healthy channels have everything, in order
 	for _, h := range healthy {
-		ok := waitFor(func() bool { acc, _ := wireUIDs(n.trs[h], fam); return len(acc) >= nItems }, func() int64 { return int64(n.trs[h].NWrites()) }, 1500*time.Millisecond)
+		ok := waitFor(func() bool { acc, _ := wireUIDs(n.trs[h], fam); return len(acc) >= nItems }, func() int64 { return appWrites(n.trs[h]) }, 1500*time.Millisecond)
 		acc, _ := wireUIDs(n.trs[h], fam)
 		if !ok || len(acc) != nItems || !increasing(acc) {
 			rep.Violation("what=isolation:loss ep=custom", fmt.Sprintf("while channel %d was stalled, healthy channel %d received %d of %d items (or out of order)", stalled, h, len(acc), nItems),
@@ -250,14 +272,25 @@ func c13stall(rep *vh.Report, seed uint64, idx int, j int) {
 			}
 			return time.Since(t0)
 		}
+		// a write to a healthy channel alone (before anything is addressed to the stalled one)
+		lone := probe(0, 10)
+		if withAuto {
+			// the stalled peer is an ArduPilot that has just shown up: the node's seven requests to it meet the full queue
+			n.trs[stalled].Feed(hbFrame(77, 1, 3, 0))
+			time.Sleep(2 * time.Millisecond)
+			rep.Count("stall_runs_with_heartbeats_and_stream_requests", 1)
+		}
+		floor := lone
+		if floor < time.Millisecond {
+			floor = time.Millisecond
+		}
 		slow := 0
-		var lone, after time.Duration
+		var after time.Duration
 		for try := 0; try < 2; try++ {
-			lone = probe(0, uint64(10+try))
 			after = probe(60, uint64(20+try))
-			floor := lone
-			if floor < time.Millisecond {
-				floor = time.Millisecond
+			if after >= 5*time.Second && after >= 50*floor {
+				slow = 2 // seconds, not scheduling noise: no second opinion needed
+				break
 			}
 			if after >= 600*time.Millisecond && after >= 50*floor {
 				slow++
@@ -267,7 +300,7 @@ func c13stall(rep *vh.Report, seed uint64, idx int, j int) {
 		}
 		rep.Count("stall_latency_probes", 1)
 		if slow == 2 {
-			rep.Violation("what=isolation:delay ep=custom", fmt.Sprintf("60 addressed writes to the stalled channel delayed a write to a healthy channel by %v (a write alone took %v), twice in a row", after.Round(time.Millisecond), lone.Round(100*time.Microsecond)),
+			rep.Violation("what=isolation:delay ep=custom", fmt.Sprintf("output addressed to the stalled channel (60 addressed writes; the node's own stream requests: %v) delayed a write to a healthy channel by %v (a write alone took %v; twice in a row, or by more than 5 s)", withAuto, after.Round(time.Millisecond), lone.Round(100*time.Microsecond)),
 				map[string]interface{}{"stalled": stalled, "healthy": h, "channels": k})
 		}
 	}
@@ -294,7 +327,7 @@ func c13stall(rep *vh.Report, seed uint64, idx int, j int) {
 	accBefore, _ := wireUIDs(n.trs[stalled], fam)
 	// release: the stalled channel emits an order-preserving subsequence, at most 64 queued + 1 in flight of the stall period
 	n.trs[stalled].UnblockWrites()
-	waitFor(func() bool { return false }, func() int64 { return int64(n.trs[stalled].NWrites()) }, 300*time.Millisecond)
+	waitFor(func() bool { return false }, func() int64 { return appWrites(n.trs[stalled]) }, 300*time.Millisecond)
 	acc, _ := wireUIDs(n.trs[stalled], fam)
 	if !increasing(acc) {
 		rep.Violation("what=backlog ep=custom", "after release the stalled channel emitted items out of submission order (or twice)", nil)
@@ -319,7 +352,7 @@ func c13stall(rep *vh.Report, seed uint64, idx int, j int) {
 				}
 			}
 			return c >= 30
-		}, func() int64 { return int64(tr.NWrites()) }, 1500*time.Millisecond)
+		}, func() int64 { return appWrites(tr) }, 1500*time.Millisecond)
 		if !ok && ti == stalled && stalledClosed() {
 			rep.Count("failure_led_to_close_event", 1)
 			continue
@@ -327,6 +360,24 @@ func c13stall(rep *vh.Report, seed uint64, idx int, j int) {
 		if !ok {
 			rep.Violation("what=silent-dead:stall ep=custom", fmt.Sprintf("after the stall was released channel %d no longer emits later writes", ti),
 				map[string]interface{}{"stalled": stalled, "stall_longer_than_write_timeout": longStall > 0, "write_timeout_ms": c13WriteTimeout.Milliseconds()})
+		}
+	}
+	if withAuto && !stalledClosed() {
+		// the node's own heartbeats come out on the recovered link again
+		hbCount := func() int {
+			c := 0
+			for _, w := range n.trs[stalled].Writes() {
+				if f, _, st := ref.ParseAt(w.Data, 0); st == ref.ParseOK && f.MsgID == 0 && !w.Failed {
+					c++
+				}
+			}
+			return c
+		}
+		base := hbCount()
+		ok := waitFor(func() bool { return hbCount() >= base+4 }, func() int64 { return 0 }, 400*time.Millisecond)
+		if !ok {
+			rep.Violation("what=silent-dead:heartbeat ep=custom", fmt.Sprintf("after the stall was released the channel is open and carries application writes again, but the node's heartbeats (period %v) no longer come out on it", c13HeartbeatPeriod),
+				map[string]interface{}{"stalled": stalled, "heartbeats_seen_after_release": hbCount() - base})
 		}
 	}
 	if !safeClose(rep, n.node) {
